@@ -44,8 +44,32 @@ def run(patch, props):
         sh("git -C /repo checkout -- .")
     return res
 
+def full(prop, k, props):
+    """verify mutant k of property prop (agent output in /tmp/mut/<prop>.out), run checks, store under seeded/"""
+    import json, shutil
+    src = f"/tmp/mut/{prop}.out"
+    v = verify(f"/tmp/mut/{prop}", f"{src}/patch{k}.diff", f"{src}/demo{k}.rs")
+    print("verify:", v["ok"], v["suite_with_patch"][:60], "| demo with patch passes:", v["demo_with_patch_passes"], "| without:", v["demo_without_patch_passes"])
+    if not v["ok"]:
+        print("NOT KEPT"); return
+    res = run(f"{src}/patch{k}.diff", props) or {}
+    d = os.path.join(os.path.dirname(os.path.abspath(__file__)), "seeded", f"{prop}-{k}")
+    os.makedirs(d, exist_ok=True)
+    shutil.copy(f"{src}/patch{k}.diff", f"{d}/patch.diff"); shutil.copy(f"{src}/demo{k}.rs", f"{d}/demo.rs")
+    notes = open(f"{src}/notes.md").read() if os.path.exists(f"{src}/notes.md") else ""
+    open(f"{d}/notes.md", "w").write(notes)
+    meta = {"property": prop, "mutant": k, "origin": "independent sub-agent given only the property text and a scratch worktree",
+            "needs_to_manifest": "see notes.md (section for mutant %s)" % k,
+            "confirmed": {"how": "seedtest.py verify in scratch worktree /tmp/mut/%s: cargo test --offline --lib with patch; cargo test --offline --test demo with and without patch" % prop, **v},
+            "checks_run": {p: {"exit": rc, "lines": lines} for p, (rc, lines) in res.items()},
+            "detected": any(rc == 1 for rc, _ in res.values())}
+    json.dump(meta, open(f"{d}/meta.json", "w"), indent=1)
+    print("stored", d, "detected =", meta["detected"])
+
 if __name__ == "__main__":
-    if sys.argv[1] == "verify":
+    if sys.argv[1] == "full":
+        full(sys.argv[2], sys.argv[3], sys.argv[4:])
+    elif sys.argv[1] == "verify":
         print(verify(*sys.argv[2:5]))
     else:
         run(sys.argv[2], sys.argv[3:])
